@@ -91,6 +91,7 @@ pub struct Outcome {
     pub drops_discarding: usize,
     pub drops_partial_front: usize,
     pub image_bytes: usize,
+    pub disposed_pending: usize,
 }
 
 /// what the queue looks like, kept only to count how often a drop found the front chunk partly sent
@@ -164,7 +165,7 @@ fn image(seed: u64, w: usize, h: usize) -> Image {
 /// run one session; `epilogue`: what dispose emits (from the calibration session), None for the calibration itself
 pub fn run_session(sess: &Value, epilogue: Option<&[u8]>) -> Outcome {
     // (epilogue None: take whatever followed the constructor's output)
-    let mut out = Outcome { coq: String::new(), json: sess.clone(), error: None, bytes: 0, short_polls: 0, drops_discarding: 0, drops_partial_front: 0, image_bytes: 0 };
+    let mut out = Outcome { coq: String::new(), json: sess.clone(), error: None, bytes: 0, short_polls: 0, drops_discarding: 0, drops_partial_front: 0, image_bytes: 0, disposed_pending: 0 };
     let mode = sess["mode"].as_str().unwrap_or("dumb").to_string();
     let (master, path) = match open_pty() {
         Ok(x) => x,
@@ -348,6 +349,9 @@ pub fn run_session(sess: &Value, epilogue: Option<&[u8]>) -> Outcome {
         }
     }
     peer.ctl(Ctl::Rates(vec![Rate { size: 65536, sleep_us: 0 }]));
+    if term.frames_pending() > 0 {
+        out.disposed_pending += 1;
+    }
     drop(term);
     let mut received = peer.finish();
     if received.len() > 4 * out.bytes + (1 << 16) {
@@ -506,7 +510,14 @@ pub fn gen_session(rng: &mut Rng, budget: usize, idx: usize) -> Value {
         ops.push(json!(["w", 100, 7]));
         ops.push(json!(["z", false]));
     }
-    let end = if rng.chance(1, 3) { "nodrain" } else { "drain" };
+    let draw = rng.chance(1, 3);
+    let end = if draw || idx % 5 == 0 { "nodrain" } else { "drain" };
+    if idx % 5 == 0 {
+        // in every run: the terminal object is released with two chunks queued that no poll has seen
+        ops.push(json!(["w", 40000, 9]));
+        ops.push(json!(["f"]));
+        ops.push(json!(["w", 100, 10]));
+    }
     json!({"mode": mode, "rates": rates_json(&rates), "ops": ops, "end": end})
 }
 
@@ -580,6 +591,7 @@ pub fn main(args: &[String]) -> i32 {
     let mut drops = 0usize;
     let mut partial_drops = 0usize;
     let mut image_bytes = 0usize;
+    let mut disposed_pending = 0usize;
     let faults0 = unix_verif::write_fault_counts();
     for (i, s) in sessions.iter().enumerate() {
         let mode = s["mode"].as_str().unwrap_or("dumb").to_string();
@@ -595,6 +607,7 @@ pub fn main(args: &[String]) -> i32 {
                 drops_discarding: 0,
                 drops_partial_front: 0,
                 image_bytes: 0,
+                disposed_pending: 0,
             },
         };
         if let Some(e) = &r.error {
@@ -609,6 +622,7 @@ pub fn main(args: &[String]) -> i32 {
         drops += r.drops_discarding;
         partial_drops += r.drops_partial_front;
         image_bytes += r.image_bytes;
+        disposed_pending += r.disposed_pending;
         js.push(r.json);
     }
     writeln!(coq, "\n].\nEval vm_compute in (pty_report 0%N sessions).").unwrap();
@@ -616,7 +630,7 @@ pub fn main(args: &[String]) -> i32 {
     let f1 = unix_verif::write_fault_counts();
     let meta = json!({"sessions": js, "errors": errors, "bytes_written": total,
                       "polls_returning_with_output_pending": short_polls, "drops_discarding_frames": drops,
-                      "drops_with_front_chunk_partly_sent": partial_drops, "image_bytes": image_bytes,
+                      "drops_with_front_chunk_partly_sent": partial_drops, "image_bytes": image_bytes, "sessions_released_with_output_pending": disposed_pending,
                       "forced_short_writes": f1[0] - faults0[0], "forced_zero_byte_writes": f1[1] - faults0[1],
                       "forced_eagain": f1[2] - faults0[2], "forced_eintr": f1[3] - faults0[3]});
     let _ = std::fs::write(format!("{}/sessions.json", out), serde_json::to_string(&meta).unwrap());
